@@ -162,7 +162,9 @@ func c13NodeProperty(t *rapid.T) {
 	hx.Class("mutated:" + leafClass(leaf.Path))
 	if changed || !sameToSecond {
 		if hx.NonTrivial(hx.Digest("node", hx.RefKey(x, false), leaf.Path, hx.RefKey(m, false))) {
-			hx.Sample(func() any { return map[string]string{"x": hx.RefKey(x, true), "mutated_leaf": leaf.Path, "x'": hx.RefKey(m, true)} })
+			hx.Sample(func() any {
+				return map[string]string{"x": hx.RefKey(x, true), "mutated_leaf": leaf.Path, "x'": hx.RefKey(m, true)}
+			})
 		}
 	}
 	if !sameToSecond {
